@@ -26,9 +26,9 @@ CONV = {"f64": ["f32", "c128", "c64", "f64"], "f32": ["f64", "c64", "f32", "c128
 @st.composite
 def strategy_case(draw):
     op = draw(st.sampled_from(["saveload", "saveload", "saveload", "clone", "detach", "to_dtype", "to_none", "cpu", "numpy"]))
-    src = draw(st.sampled_from(["cores", "cores", "svd", "round", "slice_step", "t", "conj", "grad"]))
+    src = draw(st.sampled_from(["cores", "cores", "svd", "round", "slice_step", "slice_range", "t", "conj", "grad"]))
     dt = draw(st.sampled_from(gen.DTYPES_ALL))
-    ttm = src == "t" or (src in ("cores", "svd", "grad") and draw(st.floats(0, 1)) < 0.3)
+    ttm = src == "t" or (src in ("cores", "svd", "grad", "slice_range") and draw(st.floats(0, 1)) < 0.3)
     if src in ("svd",):
         x = draw(gen.tt_spec(dmin=2, dmax=5, sizes=(1, 2, 3, 4), dt=dt, mode="gauss", ttm=ttm, rmax=3, maxnumel=600 if not ttm else 24))
     elif ttm:
@@ -75,6 +75,17 @@ def _build(T, case, ck):
     if src == "slice_step":
         x = T.TT(cores)
         idx = tuple(slice(None, None, 2) if n >= 3 else slice(None) for n in xs["N"])
+        y = x[idx]
+        return y if isinstance(y, T.TT) else x
+    if src == "slice_range":
+        # contiguous ranges a:b on every mode that allows one: the cores of the result are windows into the parent's cores
+        # (the first one a *contiguous* window, the others non-contiguous views)
+        x = T.TT(cores)
+        rng_ = lambda n: slice(1, n) if n >= 2 else slice(None)
+        if ttm:
+            idx = tuple(rng_(m) for m in xs["M"]) + tuple(rng_(n) for n in xs["N"])
+        else:
+            idx = tuple(rng_(n) for n in xs["N"])
         y = x[idx]
         return y if isinstance(y, T.TT) else x
     if src == "t":
